@@ -89,6 +89,10 @@ class Gen:
                     comment = r.choice(['say \\"%s\\"' % nm, '\\"%s\\" quoted first' % nm, 'mid \\"q\\" dle %s' % nm, '\\"'])
                     self.tags.add("comment-with-escaped-quotes")
             decls.append({"name": nm, "dims": dims, "mods": mods, "value": value, "comment": comment})
+            if comment and "\\" not in comment and len(comment) > 3 and r.random() < 0.25:
+                # written as a concatenation of two string literals
+                decls[-1]["comment_split"] = r.randint(1, len(comment) - 1)
+                self.tags.add("comment-written-as-concatenation")
             if typ == "Real" and not dims and not (set(pf) & {"parameter", "constant"}):
                 real_names.append(nm)
         if len(decls) >= 2:
@@ -137,8 +141,9 @@ class Gen:
                                   "mods": [(m, num(r.randint(1, 9))) for m in base["params"][:r.randint(0, 2)]]})
                     self.tags.add("extends-in-%s-section" % (label or "default"))
                 elif k < 0.88:
-                    form = r.choice(["qualified", "renaming", "unqualified", "list"])
-                    elems.append({"kind": "import", "form": form, "pkg": "Lib%d" % r.randint(1, 3), "cls": self.fresh("I")})
+                    form = r.choice(["qualified", "renaming", "unqualified", "list", "list"])
+                    elems.append({"kind": "import", "form": form, "pkg": "Lib%d" % r.randint(1, 3), "cls": self.fresh("I"),
+                                  "nlist": r.randint(2, 4)})
                     self.tags.add("import:" + form)
                 elif depth < 2:
                     inner = self.cls(self.fresh("N"), depth + 1, known_classes)
@@ -181,7 +186,11 @@ def print_elem(e, ind):
             if d["value"] is not None:
                 t += " = " + P(d["value"])
             if d["comment"]:
-                t += ' "%s"' % d["comment"]
+                if d.get("comment_split"):
+                    k_ = d["comment_split"]
+                    t += ' "%s" + "%s"' % (d["comment"][:k_], d["comment"][k_:])
+                else:
+                    t += ' "%s"' % d["comment"]
             parts.append(t)
         return s + " " + ", ".join(parts) + ";\n"
     if e["kind"] == "extends":
@@ -194,8 +203,13 @@ def print_elem(e, ind):
             return "%simport %s = %s.%s;\n" % (ind, e["cls"], e["pkg"], e["cls"] + "Long")
         if e["form"] == "unqualified":
             return "%simport %s.Sub%s.*;\n" % (ind, e["pkg"], e["cls"])
-        return "%simport %s.{%s, %s};\n" % (ind, e["pkg"], e["cls"], e["cls"] + "b")
+        return "%simport %s.{%s};\n" % (ind, e["pkg"], ", ".join(list_names(e)))
     return print_cls(e["cls"], ind)
+
+
+def list_names(e):
+    """names of an import list  import P.{a, ab, ac, ad}"""
+    return [e["cls"]] + [e["cls"] + ch for ch in "bcd"[:e.get("nlist", 2) - 1]]
 
 
 def print_cls(c, ind=""):
@@ -350,7 +364,7 @@ def compare_class(ctx, c, pc, path, probe_symbols):
             v = imps.get("*")
             ok = v is not None and any(cmp.to_tuple() == (e["pkg"], "Sub" + e["cls"]) for cmp in v.components)
         else:
-            ok = all(n in imps and hasattr(imps[n], "to_tuple") and imps[n].to_tuple() == (e["pkg"], n) for n in (e["cls"], e["cls"] + "b"))
+            ok = all(n in imps and hasattr(imps[n], "to_tuple") and imps[n].to_tuple() == (e["pkg"], n) for n in list_names(e))
         if not ok:
             return ("import:" + e["form"], "%s: import %s not attached as declared (imports: %s)" % (path, e, list(imps.keys())))
     # sections
